@@ -6,6 +6,7 @@ import TFV.Properties.Src.TreeMethods
 import TFV.Properties.Src.StandardX
 import TFV.Properties.Src.OnePointGP
 import TFV.Properties.Src.TreeCall
+import TFV.Properties.Src.TreeInit
 #print axioms TFV.Tree.C09_scan_flat
 #print axioms TFV.Tree.C09_size_flat
 #print axioms TFV.Tree.C09_endSub
@@ -42,3 +43,4 @@ import TFV.Properties.Src.TreeCall
 #print axioms TFV.SrcTie.C09_src_tree_call
 #print axioms TFV.SrcTie.C09_src_tree_str
 #print axioms TFV.SrcTie.C09_src_tree_call_run
+#print axioms TFV.SrcTie.C09_src_init_n_args
